@@ -2,6 +2,11 @@
 """Prints the prompt given to a fresh sub-agent for seeding a property-breaking change (only the property text + its worktree)."""
 import json, sys
 pid, wt = sys.argv[1], sys.argv[2]
+import glob, os
+avoid = []
+for m in sorted(glob.glob(f'/verif/seeded/{pid}-*/meta.json')):
+    d = json.load(open(m))
+    avoid.append("- " + str(d.get('summary', ''))[:400].replace("\n", " ") + " (files: " + ", ".join(os.path.basename(f) for f in d.get('files_changed', [])) + ")")
 prop = None
 for l in open('/verif/properties.jsonl'):
     d = json.loads(l)
@@ -18,6 +23,7 @@ TASK: produce ONE realistic code change (a plausible bug of the kind a developer
 PROPERTY (JSON):
 {json.dumps(text, indent=1)}
 
+{"ALREADY TAKEN - choose a DIFFERENT idea, in a different function and with a different trigger than these earlier changes:" + chr(10) + chr(10).join(avoid) + chr(10) if avoid else ""}
 RULES
 - Change only non-test production source code under crates/. Do not modify existing tests, do not touch code under #[cfg(test)], and do not touch the verification hooks: anything guarded by #[cfg(feature = "verif")], the files crates/tako/src/verif.rs, crates/hyperqueue/src/server/verif.rs, crates/tako/src/internal/worker/resources/verif_hooks.rs. The change must not depend on the `verif` cargo feature.
 - Keep the change small (typically 1-15 lines) and natural looking. No comments that give it away.
